@@ -143,7 +143,35 @@ proof fn verif_canary_must_fail(x: int) ensures x > 0 { }
 """
 
 
+UNKNOWN_METHOD = re.compile(r"no method named `(\w+)` found for (?:enum|struct|mutable reference|reference) `(?:&mut |&)?(\w+)`")
+
+
 def run_verus_file(uid, gen_text, obls, workdir, timeout=600, rlimit=100):
+    """R15b: a change may route a decision through a NEW argument-less predicate of a model type (`if x.points_to_object() { .. }`) that the
+    unit's vocabulary does not have.  Instead of abstaining (the file would not compile), the predicate is added as an uninterpreted boolean
+    method -- nothing is assumed about it -- and the file is verified again: the contract then decides whether the property's outcome may
+    depend on it.  Only for calls `.name()` without arguments; anything else stays undecided."""
+    added = []
+    for _ in range(4):
+        res = _run_verus_once(uid, gen_text, obls, workdir, timeout, rlimit)
+        m = UNKNOWN_METHOD.search(res.undecided or "") if (res.undecided or "").startswith("generated file does not compile") else None
+        if not m or (m.group(1), m.group(2)) in added or not re.search(r"\.\s*" + m.group(1) + r"\s*\(\s*\)", gen_text):
+            break
+        name, ty = m.group(1), m.group(2)
+        added.append((name, ty))
+        stub = (f"\n// R15b: `{ty}::{name}` is not in this unit's vocabulary: an uninterpreted predicate (nothing assumed about it)\n"
+                f"pub uninterp spec fn verif_unknown_{ty}_{name}(p: {ty}) -> bool;\n"
+                f"impl {ty} {{ #[verifier::external_body] pub fn {name}(&self) -> (r: bool) ensures r == verif_unknown_{ty}_{name}(*self) {{ unimplemented!() }} }}\n")
+        idx = gen_text.rfind("} // verus!")
+        gen_text = gen_text[:idx] + stub + gen_text[idx:]
+        for o in obls:
+            o.status = None; o.detail = ""
+    if added:
+        res.samples = list(getattr(res, "samples", []) or []) + [f"[R15b] unknown predicate {t}::{n}() ==> uninterpreted boolean method" for n, t in added]
+    return res
+
+
+def _run_verus_once(uid, gen_text, obls, workdir, timeout=600, rlimit=100):
     """run Verus on one generated file; fill obligation statuses by marker; returns UnitResult"""
     res = UnitResult(uid)
     res.engine = "verus 0.2026.09.13 / z3"
